@@ -1097,7 +1097,34 @@ def fuzz_entry_points(schema: Any) -> list[tuple[str, str, Callable[[bytes], Any
         ('pkg.to_dict:lax', 'lax', lambda d: xmlschema.to_dict(d, schema, cls=cls, validation='lax') and None),
         ('lazy.is_valid', 'lax', lambda d: schema.is_valid(xmlschema.XMLResource(d, lazy=True))),
         ('lazy.decode:lax', 'lax', lambda d: schema.decode(xmlschema.XMLResource(d, lazy=True), validation='lax') and None),
+        # defusing applied to the raw source (the scan of sax.py runs before the parser) and location hints followed
+        ('XMLResource:defuse', 'n/a', lambda d: xmlschema.XMLResource(d, defuse='always') and None),
+        ('XMLResource:defuse-lazy', 'n/a', lambda d: xmlschema.XMLResource(d, defuse='always', lazy=True) and None),
+        ('is_valid:hints', 'lax', lambda d: schema.is_valid(d, use_location_hints=True)),
+        # the same document handed over as a parsed tree that keeps comment / PI nodes (lxml; ElementTree with
+        # insert_comments): only for documents these parsers accept (their own parse errors are not the library's)
+        ('lxml.is_valid:hints', 'tree', lambda d: _tree_call(schema, d, 'lxml')),
+        ('etc.iter_errors:hints', 'tree', lambda d: _tree_call(schema, d, 'etc')),
     ]
+
+
+class _NotParsed(Exception):
+    pass
+
+
+def _tree_call(schema: Any, data: bytes, kind: str) -> Any:
+    import xml.etree.ElementTree as ET
+    try:
+        if kind == 'lxml':
+            import lxml.etree as LE
+            tree = LE.fromstring(data, parser=LE.XMLParser(resolve_entities=False, no_network=True))
+        else:
+            tree = ET.fromstring(data, parser=ET.XMLParser(target=ET.TreeBuilder(insert_comments=True, insert_pis=True)))
+    except Exception:
+        return None           # not a document for this parser: nothing handed to the library
+    if kind == 'lxml':
+        return schema.is_valid(tree, use_location_hints=True)
+    return list(schema.iter_errors(tree, use_location_hints=True)) and None
 
 
 def fuzz_case(ctx: Ctx, schema: Any, sname: str, data: bytes, how: str, seen_classes: dict) -> None:
@@ -1182,6 +1209,18 @@ def fuzz_part(ctx: Ctx, drv: Optional[Driver]) -> None:
                         ('T/1.1', ('<p:root xmlns:p="urn:t" xmlns:xsi="%s" version="2"><p:title>x</p:title><p:item key="1">'
                                    '<p:code xsi:type=":">A</p:code><p:price>1</p:price></p:item></p:root>' % G.XSI).encode())):  # C11-F9
         fuzz_case(ctx, schemas[sname], sname, data, 'witness', seen)
+    # declared encodings the parser knows, does not know or refuses (with and without defusing: both entry points)
+    for enc in ('foo', 'utf-32', 'big5', 'utf-16', 'utf-7', 'cp037', 'ascii', 'latin-1', 'UTF-8', 'x' * 300, ''):
+        fuzz_case(ctx, schemas['T/1.0'], 'T/1.0', ('<?xml version="1.0" encoding="%s"?><p:root xmlns:p="urn:t" version="1">'
+                                                   '<p:title>x</p:title></p:root>' % enc).encode('latin-1'), 'declared-encoding', seen)
+    # comment / PI nodes before an element that carries a schemaLocation hint (kept by lxml and by ElementTree with
+    # insert_comments: iter_schema_namespaces walks them when use_location_hints=True)
+    for sname in ('T/1.0', 'T/1.1', 'recursive/1.0'):
+        for pre in ('<!-- c -->', '<?pi x?>', '<!-- c --><?pi x?>', ''):
+            for loc in ('urn:o /nonexistent/o.xsd', 'urn:t urn:t', 'odd', ''):
+                xml = ('<p:root xmlns:p="urn:t" xmlns:xsi="%s" version="1">%s<p:title xsi:schemaLocation="%s">x</p:title>'
+                       '%s<o:x xmlns:o="urn:o" xsi:schemaLocation="%s"/></p:root>' % (G.XSI, pre, loc, pre, loc))
+                fuzz_case(ctx, schemas[sname], sname, xml.encode(), 'comment-before-hint', seen)
     # unknown / odd namespace names (C11-F11 shows up for lazy resources)
     for ns in ('http://[bad', 'urn:x y', 'http://example.c]]&gt;om/v', '%zz', 'urn:' + 'n' * 3000, 'é', ' '):
         for sname in ('T/1.0', 'recursive/1.0') + (('corpus:vehicles',) if 'corpus:vehicles' in schemas else ()):
